@@ -29,6 +29,17 @@ def junk_files(rng, sample_pel):
          ('junk_uhid', sample_pel[:48] + b'ZZ' + sample_pel[50:])]
     for k in sorted(rng.sample(range(1, max(2, len(sample_pel))), min(6, max(1, len(sample_pel) - 1)))):
         j.append(('junk_prefix%d' % k, sample_pel[:k]))
+    # cut exactly at a section boundary, and a few bytes past one (nothing of the next section's header is complete)
+    off, bounds = 0, []
+    while off + 4 <= len(sample_pel):
+        ln = int.from_bytes(sample_pel[off + 2:off + 4], 'big')
+        if ln < 8 or off + ln > len(sample_pel):
+            break
+        off += ln
+        bounds.append(off)
+    for b_ in bounds[1:-1][:4]:
+        j.append(('junk_boundary%d' % b_, sample_pel[:b_]))
+        j.append(('junk_boundary%d_plus' % b_, sample_pel[:b_ + rng.randrange(1, 8)]))
     # PCE identity whose size byte is below 24 (its diagnostic used to go to stdout)
     pce = b'PE' + bytes([20, 0]) + b'9105-22A' + b'SN0000000001'
     co = pelbuild.callout(subs=pelbuild.fru() + pce, loc=b'U78DA.ND1\0\0\0')
@@ -153,6 +164,12 @@ def run(tier, seed):
                 ck.disagree('number of diagnostics on stderr differs from the model', rp | {'impl': clirun.diag_lines(b[1]), 'model': me, 'stderr': b[1][-400:]})
         # the same pairs in interpreters that run with assertions disabled (`python -O`): truncated files must stay undecodable there
         for (mode, argv, cfg, clean, dirty, files, junk) in [m for m in meta if m[5] and m[6]][::(3 if thorough else 6)]:
+            # (also: an undecodable file whose NAME is not valid UTF-8 -- what the diagnostic says about it must not end the run)
+            try:
+                with open(os.path.join(os.fsencode(dirty), b'junk_\xff\xfe_name'), 'wb') as f_:
+                    f_.write(b'PHjunk with an odd name')
+            except OSError:
+                pass
             a = clirun.run_sub(['-p', clean] + clirun.cfg_argv(cfg) + argv, optimise=True)
             b = clirun.run_sub(['-p', dirty] + clirun.cfg_argv(cfg) + argv, optimise=True)
             ck.case(key=('-O', mode, tuple(files), tuple(junk)))
